@@ -258,6 +258,8 @@ def check_ignore_run(prog: dict, base: dict, added: dict[int, list[str]], kind: 
             stats["runs_removing_notes"] += 1
         if any(len(model.span_of(i)) > 1 for i in pr.removed):
             stats["runs_removing_multiline_span"] += 1
+    if getattr(pr, "resurfaced", None):
+        stats["runs_where_a_once_only_note_moves_to_the_next_occurrence"] += 1
     if pr.unused:
         stats["runs_expecting_unused_ignore"] += 1
     if any("narrower" in m for m in pr.unused.values()):
@@ -434,27 +436,32 @@ def check_disable_run(prog: dict, base: dict, variant: str, c: str, extra: list[
 
 
 def check_status(prog: dict, text: str, extra: list[str], what: str, stats: Counter) -> dict | None:
-    try:
-        r = lane.cli_status(prog, text, extra)
-    except Exception as e:  # noqa: BLE001
-        stats["cli_harness_errors"] += 1
-        return None
-    if r["crashed"]:
-        stats["cli_crashed_runs (not judged)"] += 1
-        return None
-    if r["usage_error"]:
-        stats["cli_usage_errors (flags not accepted on the command line; not judged)"] += 1
-        return None
-    want = 2 if r["blocker"] else (1 if r["n_error_lines"] else 0)
-    stats["exit_status_checks"] += 1
-    stats[f"exit_status_expected_{want}"] += 1
-    if r["lines"] and not r["n_error_lines"]:
-        stats["exit_status_notes_only_runs"] += 1
-    if r["status"] == want:
-        return None
-    return {"signature": f"exit-status|got {r['status']} want {want}|blocker={r['blocker']}|error_lines={'0' if not r['n_error_lines'] else '>0'}",
-            "family": "status", "program": prog["id"], "what": what, "args": r["args"], "main_text": text,
-            "status": r["status"], "want": want, "output": r["lines"][:20], "extra": [], "missing": []}
+    """Text output and `--output json`: the status must not depend on how the messages are rendered."""
+    first = None
+    for mode in ("text", "json"):
+        try:
+            r = lane.cli_status(prog, text, extra, json_mode=mode == "json")
+        except Exception:  # noqa: BLE001
+            stats["cli_harness_errors"] += 1
+            continue
+        if r["crashed"]:
+            stats["cli_crashed_runs (not judged)"] += 1
+            continue
+        if r["usage_error"]:
+            stats["cli_usage_errors (flags not accepted on the command line; not judged)"] += 1
+            continue
+        want = 2 if r["blocker"] else (1 if r["n_error_lines"] else 0)
+        stats["exit_status_checks"] += 1
+        stats[f"exit_status_checks:{mode}"] += 1
+        stats[f"exit_status_expected_{want}"] += 1
+        if r["lines"] and not r["n_error_lines"]:
+            stats["exit_status_notes_only_runs"] += 1
+        if r["status"] != want and first is None:
+            tag = "exit-status" if mode == "text" else "exit-status/json"
+            first = {"signature": f"{tag}|got {r['status']} want {want}|blocker={r['blocker']}|error_lines={'0' if not r['n_error_lines'] else '>0'}",
+                     "family": "status", "program": prog["id"], "what": what, "args": r["args"], "main_text": text,
+                     "status": r["status"], "want": want, "output": r["lines"][:20], "extra": [], "missing": []}
+    return first
 
 
 # --------------------------------------------------------------------------- one program / one batch
@@ -655,6 +662,22 @@ def probe_scan(prog: dict) -> bool:
     return False
 
 
+# Generated anchor family (both tiers): 2-3 lines that each produce the SAME once-per-build message
+# (`only_once=True` in mypy/build.py module_not_found: the "See https://...#missing-imports" note), so that every
+# subset of ignored lines decides where the note must re-attach (first non-suppressed occurrence).
+GENERATED = {
+    "once-imports-2": "import nosuch_a\nimport nosuch_b",
+    "once-imports-3": "import nosuch_a\nimport nosuch_b\nimport nosuch_c",
+    "once-from-imports-3": "from nosuch_a import x\nimport nosuch_b.sub\nfrom nosuch_c.d import y",
+    "once-imports-mixed-3": "import nosuch_a\nx: int = ''\nimport nosuch_b\nreveal_type(x)\nfrom nosuch_c import z",
+}
+
+
+def generated_programs() -> list[dict]:
+    return [{"id": f"generated::{name}", "file": "generated", "name": name, "main": text, "files": {}, "flags": [],
+             "est_lines": text.count("import"), "probe_individual": False} for name, text in sorted(GENERATED.items())]
+
+
 def estimate_error_lines(c: corpus.Case) -> int:
     """Only used to balance the work queue (the corpus marks expected errors as `# E:` / in [out])."""
     import re
@@ -732,6 +755,8 @@ def select_programs(ctx: Ctx) -> tuple[list[dict], dict]:
             p["est_lines"] = estimate_error_lines(c)
             p["probe_individual"] = ctx.quick or probe_scan(p)  # quick: every program; thorough: AST-selected ones
             progs.append(p)
+    progs += generated_programs()
+    info["generated_programs"] = sorted(GENERATED)
     info["files"] = [os.path.basename(f) for f in files]
     info["programs_probed_code_by_code (AST scan)"] = sum(1 for p in progs if p["probe_individual"])
     info["cases_not_used"] = dict(skipped)
@@ -798,8 +823,11 @@ def run(ctx: Ctx) -> Result:
 def replay(ctx: Ctx, rec: dict) -> Result:
     d = rec["detail"]
     fname, _, name = d["program"].partition("::")
-    case = [c for c in corpus.load_file(os.path.join(corpus.UNIT, fname)) if c.name == name][0]
-    prog = lane.program_of(case)
+    if fname == "generated":
+        prog = [p for p in generated_programs() if p["name"] == name][0]
+    else:
+        case = [c for c in corpus.load_file(os.path.join(corpus.UNIT, fname)) if c.name == name][0]
+        prog = lane.program_of(case)
     only: dict[str, Any] = {"family": d["family"]}
     if d["family"] == "ignore":
         only.update(kind=d["kind"], warn=d["warn"], lines=d["lines"])
